@@ -598,3 +598,23 @@ func zzAttrs(what int) {
 	}
 	zzReach("end")
 }
+
+// zzH19_time_time_fixed: time - time for a symbolic instant and a few concrete
+// offsets (cheap companion of zzH19_dispatch_time_time: no solver-hard step):
+// (t + D) - t == D and t - (t + D) == -D.
+func zzH19_time_time_fixed() {
+	t, _, _ := zzSymTime("t")
+	ds := [...]int64{1, -1, 999999999, -1000000000, 3600*zzNano + 1, -(1 << 60)}
+	D := ds[zzChoice("D", len(ds))]
+	u := Time(time.Time(t).Add(time.Duration(D)))
+	r, err := starlark.Binary(syntax.MINUS, u, t)
+	zzAssert(err == nil, "C19.fixed.ok")
+	d, isD := r.(Duration)
+	zzAssert(isD, "C19.fixed.type")
+	zzObserve("d", int64(d))
+	zzAssert(int64(d) == D, "C19.fixed.forward")
+	r2, err := starlark.Binary(syntax.MINUS, t, u)
+	zzAssert(err == nil, "C19.fixed.ok2")
+	zzAssert(int64(r2.(Duration)) == -D, "C19.fixed.backward")
+	zzReach("end")
+}
